@@ -500,7 +500,159 @@ Proof.
   eapply conv1d_core_dw; eauto.
 Qed.
 
+(* ---- fold_bn = true for Conv2d / Linear *)
+Lemma nth_map_rzero (l : list R) j : nth j (map (fun x => rmul x r0) l) r0 = r0.
+Proof.
+  destruct (Nat.lt_ge_cases j (length l)) as [H|H].
+  - rewrite (nth_map_in _ l j r0 r0) by exact H. apply rmul_0_r.
+  - apply nth_overflow. rewrite map_length. exact H.
+Qed.
+
+Lemma map_rone (l : list R) : map (fun x => rmul x r1) l = l.
+Proof. rewrite (map_ext _ (fun x => x)) by (intro; apply rmul_1_r). apply map_id. Qed.
+
+Lemma w4at_out mout (w : w4 R) co ci : length mout = length w ->
+  w4at (mask_w4_out r0 r1 rmul mout w) co ci = map (map (fun x => rmul x (bit (nth co mout false)))) (w4at w co ci).
+Proof.
+  intro H. unfold w4at, mask_w4_out. destruct (Nat.lt_ge_cases co (length w)) as [Hco|Hco].
+  - rewrite (nth_map_in _ (combine mout w) co (false, []) []) by (rewrite combine_length; lia).
+    rewrite combine_nth by exact H. cbn [fst snd].
+    set (g := map (map (fun x => rmul x (bit (nth co mout false))))).
+    change (@nil (list R)) with (g []) at 1. rewrite map_nth. reflexivity.
+  - rewrite (nth_overflow (map _ (combine mout w))) by (rewrite map_length, combine_length; lia).
+    rewrite (nth_overflow w) by exact Hco. destruct ci; reflexivity.
+Qed.
+
+Lemma conv2d_at_ext dw (w w' : w4 R) b b' cin kh kw d s ph pw x co h v :
+  (forall ci, w4at w co ci = w4at w' co ci) -> (forall acc, addbias r0 radd b co acc = addbias r0 radd b' co acc) ->
+  conv2d_at r0 radd rmul dw w b cin kh kw d s ph pw x co h v = conv2d_at r0 radd rmul dw w' b' cin kh kw d s ph pw x co h v.
+Proof.
+  intros Hw Hb. unfold conv2d_at. rewrite Hb. f_equal. destruct dw; [rewrite Hw; reflexivity|].
+  apply f_equal. apply map_ext. intro ci. rewrite Hw. reflexivity.
+Qed.
+
+Lemma mask_bias_alive maskbias mout (b : option (list R)) co acc : bias_ok b (length mout) -> nth co mout false = true ->
+  addbias r0 radd (mask_bias r0 r1 rmul maskbias mout b) co acc = addbias r0 radd b co acc.
+Proof.
+  intros Hb Ea. destruct maskbias; [|reflexivity]. destruct b as [bl|]; [|reflexivity]. cbn.
+  rewrite nth_mask_bias by (apply Hb; reflexivity). rewrite Ea. cbn. rewrite rmul_1_r. reflexivity.
+Qed.
+Lemma mask_bias_dead mout (b : option (list R)) co : bias_ok b (length mout) -> nth co mout false = false ->
+  addbias r0 radd (mask_bias r0 r1 rmul true mout b) co r0 = r0.
+Proof.
+  intros Hb Ed. destruct b as [bl|]; [|reflexivity]. cbn.
+  rewrite nth_mask_bias by (apply Hb; reflexivity). rewrite Ed. cbn. rewrite rmul_0_r. apply radd_0_l.
+Qed.
+
+Lemma fold_alive_conv2d maskbias dw (w : w4 R) b bn cin kh kw d s ph pw mout x co h v :
+  length mout = length w -> bias_ok b (length mout) -> nth co mout false = true ->
+  pit_conv2d_at r0 r1 radd rmul maskbias true dw w b bn cin kh kw d s ph pw mout x co h v
+  = conv2d_at r0 radd rmul dw w b cin kh kw d s ph pw x co h v.
+Proof.
+  intros Hl Hb Ea. unfold pit_conv2d_at. apply conv2d_at_ext.
+  - intro ci. rewrite w4at_out by exact Hl. rewrite Ea. cbn [Conv.bit].
+    rewrite (map_ext _ (fun l => l)) by (intro; apply map_rone). apply map_id.
+  - intro acc. apply mask_bias_alive; assumption.
+Qed.
+
+Lemma taps2_wzero (wk : list (list R)) kh kw d (x : Z -> Z -> R) u v : (forall a b, nth b (nth a wk []) r0 = r0) -> taps2 r0 radd rmul wk kh kw d x u v = r0.
+Proof. intro H. unfold taps2. apply rsum_zero. intros a _. apply rsum_zero. intros b _. rewrite H. apply rmul_0_l. Qed.
+
+Theorem dead_out_zero_conv2d_fold dw (w : w4 R) b bn cin kh kw d s ph pw mout x co h v :
+  length mout = length w -> bias_ok b (length mout) -> nth co mout false = false ->
+  pit_conv2d_at r0 r1 radd rmul true true dw w b bn cin kh kw d s ph pw mout x co h v = r0.
+Proof.
+  intros Hl Hb Ed. unfold pit_conv2d_at, conv2d_at.
+  assert (Hz : forall ci a c, nth c (nth a (w4at (mask_w4_out r0 r1 rmul mout w) co ci) []) r0 = r0).
+  { intros ci a c. rewrite w4at_out by exact Hl. rewrite Ed. cbn [Conv.bit].
+    set (g := map (fun x0 : R => rmul x0 r0)). change (@nil R) with (g []) at 1. rewrite map_nth. apply nth_map_rzero. }
+  match goal with |- addbias _ _ _ _ ?acc = _ => assert (Hacc : acc = r0) end.
+  { destruct dw; [apply taps2_wzero; apply Hz|]. apply rsum_zero. intros ci _. apply taps2_wzero. apply Hz. }
+  rewrite Hacc. apply mask_bias_dead; assumption.
+Qed.
+
+Theorem conv2d_export_eq_fold_full maskbias (w : w4 R) b bn cout cin kh kw d s ph pw mout min (x : nat -> Z -> Z -> R) co' h v :
+  shape4 w cout cin -> bias_ok b cout -> length mout = cout -> length min = cin ->
+  (forall ci, ci < cin -> nth ci min false = false -> forall a c, x ci a c = r0) ->
+  co' < count_true mout ->
+  pit_conv2d_at r0 r1 radd rmul maskbias true false w b bn cin kh kw d s ph pw mout x (nth co' (kept mout) 0) h v
+  = conv2d_at r0 radd rmul false (export_w4 false mout min w) (export_bias mout b) (count_true min) kh kw d s ph pw
+      (fun i => x (nth i (kept min) 0)) co' h v.
+Proof.
+  intros Hs Hb Hmo Hmi Hdead Hco.
+  assert (Hco' : co' < length (kept mout)) by (rewrite kept_length; exact Hco).
+  destruct (kept_nth_alive mout co' Hco') as [Ea _].
+  rewrite fold_alive_conv2d; [|destruct Hs as (Hw & _); lia|rewrite Hmo; exact Hb|exact Ea].
+  pose proof (conv2d_export_eq_full maskbias w b None cout cin kh kw d s ph pw mout min x co' h v Hs Hb) as E.
+  unfold pit_conv2d_at in E. cbn [bn_at slice_bn option_map] in E. rewrite gate_alive in E by exact Ea.
+  apply E; auto. intros a sh F. discriminate.
+Qed.
+
+Theorem conv2d_export_eq_fold_dw maskbias (w : w4 R) b bn c kh kw d s ph pw mout min (x : nat -> Z -> Z -> R) co' h v :
+  shape4 w c 1 -> bias_ok b c -> length mout = c -> co' < count_true mout ->
+  pit_conv2d_at r0 r1 radd rmul maskbias true true w b bn c kh kw d s ph pw mout x (nth co' (kept mout) 0) h v
+  = conv2d_at r0 radd rmul true (export_w4 true mout min w) (export_bias mout b) (count_true min) kh kw d s ph pw
+      (fun i => x (nth i (kept mout) 0)) co' h v.
+Proof.
+  intros Hs Hb Hmo Hco.
+  assert (Hco' : co' < length (kept mout)) by (rewrite kept_length; exact Hco).
+  destruct (kept_nth_alive mout co' Hco') as [Ea _].
+  rewrite fold_alive_conv2d; [|destruct Hs as (Hw & _); lia|rewrite Hmo; exact Hb|exact Ea].
+  pose proof (conv2d_export_eq_dw maskbias w b None c kh kw d s ph pw mout min x co' h v Hs Hb) as E.
+  unfold pit_conv2d_at in E. cbn [bn_at slice_bn option_map] in E. rewrite gate_alive in E by exact Ea.
+  apply E; auto. intros a sh F. discriminate.
+Qed.
+
+Lemma w2_out mout (w : list (list R)) co ci : length mout = length w ->
+  nth ci (nth co (mask_w2_out r0 r1 rmul mout w) []) r0 = rmul (nth ci (nth co w []) r0) (bit (nth co mout false)).
+Proof.
+  intro H. unfold mask_w2_out. destruct (Nat.lt_ge_cases co (length w)) as [Hco|Hco].
+  - rewrite (nth_map_in _ (combine mout w) co (false, []) []) by (rewrite combine_length; lia).
+    rewrite combine_nth by exact H. cbn [fst snd].
+    destruct (Nat.lt_ge_cases ci (length (nth co w []))) as [Hci|Hci].
+    + rewrite (nth_map_in _ _ ci r0 r0) by exact Hci. reflexivity.
+    + rewrite nth_overflow by (rewrite map_length; exact Hci). rewrite (nth_overflow (nth co w [])) by exact Hci.
+      rewrite rmul_0_l. reflexivity.
+  - rewrite (nth_overflow (map _ (combine mout w))) by (rewrite map_length, combine_length; lia).
+    rewrite (nth_overflow w) by exact Hco. destruct ci; cbn; rewrite rmul_0_l; reflexivity.
+Qed.
+
+Lemma fold_alive_linear maskbias (w : list (list R)) b bn cin mout x co :
+  length mout = length w -> bias_ok b (length mout) -> nth co mout false = true ->
+  pit_linear_at r0 r1 radd rmul maskbias true w b bn cin mout x co = linear_at r0 radd rmul w b cin x co.
+Proof.
+  intros Hl Hb Ea. unfold pit_linear_at, linear_at. rewrite mask_bias_alive by assumption. f_equal.
+  apply f_equal. apply map_ext. intro ci. rewrite w2_out by exact Hl. rewrite Ea. cbn. rewrite rmul_1_r. reflexivity.
+Qed.
+
+Theorem dead_out_zero_linear_fold (w : list (list R)) b bn cin mout x co :
+  length mout = length w -> bias_ok b (length mout) -> nth co mout false = false ->
+  pit_linear_at r0 r1 radd rmul true true w b bn cin mout x co = r0.
+Proof.
+  intros Hl Hb Ed. unfold pit_linear_at, linear_at.
+  rewrite (rsum_zero _ (seq 0 cin)).
+  - apply mask_bias_dead; assumption.
+  - intros ci _. rewrite w2_out by exact Hl. rewrite Ed. cbn. rewrite rmul_0_r. apply rmul_0_l.
+Qed.
+
+Theorem linear_export_eq_fold maskbias (w : list (list R)) b bn cout cin mout min (x : nat -> R) co' :
+  shape2 w cout cin -> bias_ok b cout -> length mout = cout -> length min = cin ->
+  (forall ci, ci < cin -> nth ci min false = false -> x ci = r0) ->
+  co' < count_true mout ->
+  pit_linear_at r0 r1 radd rmul maskbias true w b bn cin mout x (nth co' (kept mout) 0)
+  = linear_at r0 radd rmul (export_w2 mout min w) (export_bias mout b) (count_true min) (fun i => x (nth i (kept min) 0)) co'.
+Proof.
+  intros Hs Hb Hmo Hmi Hdead Hco.
+  assert (Hco' : co' < length (kept mout)) by (rewrite kept_length; exact Hco).
+  destruct (kept_nth_alive mout co' Hco') as [Ea _].
+  rewrite fold_alive_linear; [|destruct Hs as (Hw & _); lia|rewrite Hmo; exact Hb|exact Ea].
+  pose proof (linear_export_eq maskbias w b None cout cin mout min x co' Hs Hb) as E.
+  unfold pit_linear_at in E. cbn [bn_at slice_bn option_map] in E. rewrite gate_alive in E by exact Ea.
+  apply E; auto. intros a sh F. discriminate.
+Qed.
+
 End RingProofs.
+
 
 (* ================================================================ packaged statements (carrier laws as one premise) *)
 Definition laws {R} (r0 r1 : R) (radd rmul : R -> R -> R) : Prop :=
@@ -708,3 +860,71 @@ Proof. intro H. split; apply Forall_forall; intros y Hy; apply in_map_iff in Hy;
 (* a channel-wise operator commutes with channel slicing *)
 Theorem channelwise_commutes_with_slicing {A B} (f : A -> B) m l : select m (map f l) = map f (select m l).
 Proof. apply select_map. Qed.
+
+(* ---- fold_bn = true, Conv2d / Linear (repaired code: bias masked) *)
+Lemma L_conv2d_export_eq_fold : forall R r0 r1 radd rmul, @laws R r0 r1 radd rmul ->
+  forall maskbias (w : w4 R) b bn cout cin kh kw d s ph pw mout min (x : nat -> Z -> Z -> R) co' h v,
+  shape4 R w cout cin -> bias_ok R b cout -> length mout = cout -> length min = cin ->
+  (forall ci, ci < cin -> nth ci min false = false -> forall a c, x ci a c = r0) ->
+  co' < count_true mout ->
+  pit_conv2d_at r0 r1 radd rmul maskbias true false w b bn cin kh kw d s ph pw mout x (nth co' (kept mout) 0) h v
+  = conv2d_at r0 radd rmul false (export_w4 false mout min w) (export_bias mout b) (count_true min) kh kw d s ph pw
+      (fun i => x (nth i (kept min) 0)) co' h v.
+Proof. use_laws conv2d_export_eq_fold_full. Qed.
+
+Lemma L_conv2d_export_eq_fold_dw : forall R r0 r1 radd rmul, @laws R r0 r1 radd rmul ->
+  forall maskbias (w : w4 R) b bn c kh kw d s ph pw mout min (x : nat -> Z -> Z -> R) co' h v,
+  shape4 R w c 1 -> bias_ok R b c -> length mout = c -> co' < count_true mout ->
+  pit_conv2d_at r0 r1 radd rmul maskbias true true w b bn c kh kw d s ph pw mout x (nth co' (kept mout) 0) h v
+  = conv2d_at r0 radd rmul true (export_w4 true mout min w) (export_bias mout b) (count_true min) kh kw d s ph pw
+      (fun i => x (nth i (kept mout) 0)) co' h v.
+Proof. use_laws conv2d_export_eq_fold_dw. Qed.
+
+Lemma L_linear_export_eq_fold : forall R r0 r1 radd rmul, @laws R r0 r1 radd rmul ->
+  forall maskbias (w : list (list R)) b bn cout cin mout min (x : nat -> R) co',
+  shape2 R w cout cin -> bias_ok R b cout -> length mout = cout -> length min = cin ->
+  (forall ci, ci < cin -> nth ci min false = false -> x ci = r0) ->
+  co' < count_true mout ->
+  pit_linear_at r0 r1 radd rmul maskbias true w b bn cin mout x (nth co' (kept mout) 0)
+  = linear_at r0 radd rmul (export_w2 mout min w) (export_bias mout b) (count_true min) (fun i => x (nth i (kept min) 0)) co'.
+Proof. use_laws linear_export_eq_fold. Qed.
+
+Lemma L_dead_out_zero_fold : forall R r0 r1 radd rmul, @laws R r0 r1 radd rmul ->
+  (forall dw (w : w3 R) b bn cin K d s mout tm x co t, length mout = length w -> bias_ok R b (length mout) -> nth co mout false = false ->
+     pit_conv1d_at r0 r1 radd rmul true true dw w b bn cin K d s mout tm x co t = r0) /\
+  (forall dw (w : w4 R) b bn cin kh kw d s ph pw mout x co h v, length mout = length w -> bias_ok R b (length mout) -> nth co mout false = false ->
+     pit_conv2d_at r0 r1 radd rmul true true dw w b bn cin kh kw d s ph pw mout x co h v = r0) /\
+  (forall (w : list (list R)) b bn cin mout x co, length mout = length w -> bias_ok R b (length mout) -> nth co mout false = false ->
+     pit_linear_at r0 r1 radd rmul true true w b bn cin mout x co = r0).
+Proof.
+  intros R r0 r1 radd rmul (H1 & H2 & H3 & H4 & H5). repeat split; intros.
+  - apply (dead_out_zero_conv1d_fold R r0 r1 radd rmul); assumption.
+  - apply (dead_out_zero_conv2d_fold R r0 r1 radd rmul); assumption.
+  - apply (dead_out_zero_linear_fold R r0 r1 radd rmul); assumption.
+Qed.
+
+(* ---- 2-D pooling preserves all-zero maps *)
+Definition zeros (l : list Z) : Prop := Forall (fun x => x = 0%Z) l.
+Lemma nth_zeros l j : zeros l -> nth j l 0%Z = 0%Z.
+Proof. intro H. revert j. induction H as [|x l Hx Hl IH]; intro j; destruct j; cbn; auto. Qed.
+Lemma concat_zeros ll : Forall zeros ll -> zeros (concat ll).
+Proof. induction 1 as [|l ll Hl Hll IH]; [constructor|]. cbn. apply Forall_app. split; assumption. Qed.
+Lemma transpose_zeros rows : Forall zeros rows -> Forall zeros (transpose_k rows).
+Proof.
+  intro H. unfold transpose_k. destruct rows as [|r rows]; [constructor|].
+  apply Forall_forall. intros col Hc. apply in_map_iff in Hc. destruct Hc as [j [<- _]].
+  apply Forall_forall. intros y Hy. apply in_map_iff in Hy. destruct Hy as [row [<- Hr]].
+  apply nth_zeros. rewrite Forall_forall in H. apply H. exact Hr.
+Qed.
+Theorem zero_preserving_pool2d (red : list Z -> Z) k x : (forall c, zeros c -> red c = 0%Z) ->
+  Forall zeros x -> Forall zeros (pool2d red k x).
+Proof.
+  intros Hr H. unfold pool2d. apply Forall_forall. intros row Hrow. apply in_map_iff in Hrow. destruct Hrow as [grp [<- Hg]].
+  pose proof (chunks_forall _ (length x) k x H) as Hgs. rewrite Forall_forall in Hgs. specialize (Hgs grp Hg).
+  apply Forall_forall. intros y Hy. apply in_map_iff in Hy. destruct Hy as [cols [<- Hc]].
+  apply Hr. apply concat_zeros.
+  pose proof (chunks_forall _ (length (transpose_k grp)) k (transpose_k grp) (transpose_zeros grp Hgs)) as Hcs.
+  rewrite Forall_forall in Hcs. apply Hcs. exact Hc.
+Qed.
+Corollary zero_preserving_maxsum_pool2d k x : Forall zeros x -> Forall zeros (maxpool2d k x) /\ Forall zeros (sumpool2d k x).
+Proof. intro H. split; apply zero_preserving_pool2d; auto using zmax_zero, zsum_zero. Qed.
